@@ -14,8 +14,13 @@ pub mod c01;
 pub mod c03;
 pub mod c04;
 pub mod c09;
+pub mod c10;
+pub mod c11;
+pub mod c12;
 pub mod c14;
 pub mod c16;
+pub mod c17;
+pub mod c18;
 pub mod c28;
 pub mod textcorpus;
 
